@@ -145,3 +145,27 @@ Proof.
   apply (forgot_prob N HN _ M K (mem_table_TInv array cfg N V t pz M HN HV Hc Inv Hnd Hd Hr Hneg Hl Hs)).
   apply (T'_none_iff array cfg N V t pz M HN HV Hc Inv Hnd Hd Hr Hneg Hl Hs). apply Hd. exact Hw.
 Qed.
+
+(* ... starting from the ARPA text: the trie loader model applied to a well-formed file that lists every n-gram once yields a table with
+   the loaders' invariants (C01_load_trie_inv) and distinct keys (load_trie_nodup), so for every such file -- whose table has the word
+   ids 0..V-1 as unigrams, scores in the exactly representable range and non-positive beyond unigrams, and no back-off at the highest
+   order -- FullScoreForgotState computed from the memory laid out from the loaded table is the ARPA back-off recursion of the file. *)
+From Kenlm Require Import LM.Load LM.LoadTrieProofs LM.LoadTrieNoDup.
+Corollary C01_load_trie_memory_end_to_end : forall (array : bool) cfg N V unigrams higher unk_prob t pz K,
+  (2 <= N)%nat -> 0 <= V < 2 ^ 32 -> 0 <= cfg ->
+  (forall g, In g (unigrams ++ concat higher) -> (1 <= length (g_key g) <= N)%nat) ->
+  (forall g w, In g (unigrams ++ concat higher) -> In w (g_key g) -> M_of (unigrams ++ concat higher) [w] <> None) ->
+  NoDup (map g_key (unigrams ++ concat higher)) ->
+  load_trie N true unk_prob unigrams higher = Loaded t ->
+  (forall w, alookup t [w] <> None <-> Z.of_N w < V) ->
+  (forall k e, alookup t k = Some e -> - 2 ^ 24 < e_prob e < 2 ^ 24 /\ - 2 ^ 24 < e_bo e < 2 ^ 24) ->
+  (forall k e, alookup t k = Some e -> (2 <= length k)%nat -> e_prob e <= 0) ->
+  (forall k e, alookup t k = Some e -> length k = N -> e_bo e = 0) ->
+  Z.of_nat (N * length t) < 2 ^ 57 ->
+  forall ctx w, Z.of_N w < V ->
+  r_prob (fst (full_score_forgot N (mem_table array cfg N V t pz) K ctx w)) = bo_score N (M_of (unigrams ++ concat higher)) ctx w.
+Proof.
+  intros array cfg N V unigrams higher up t pz K HN HV Hc Hl Hw Hnd Hload Hd Hr Hneg Hlong Hs ctx w Hwv.
+  apply (C01_trie_memory_end_to_end array cfg N V t pz (M_of (unigrams ++ concat higher)) K HN HV Hc
+           (load_trie_inv N unigrams higher up t HN Hl Hw Hload) (load_trie_nodup N up unigrams higher t HN Hnd Hload) Hd Hr Hneg Hlong Hs ctx w Hwv).
+Qed.
